@@ -257,14 +257,23 @@ def signature(prop, rows, race_writers=0):
 
 # ---------------------------------------------------------------------------------------------------------------------
 
-def verdicts(c, rows, name, count):
-    rows = rows + [{"e": "end"}]
-    ok, why, res = validate_trace(c, "ProvisionTrace", "ProvisionTrace.cfg", rows, name, count=0, timeout=900, heap="3g")
-    if not ok:
-        raise util.ToolError("ProvisionTrace could not follow the recorded runs (%s): %s" % (name, why))
+def verdicts(c, rows, name, count, chunk_runs=350):
+    """TLC decides every recorded run against the statement; {run id: [names of the parts that fail]}"""
+    groups, cur = [], []
+    for r in rows:
+        if r["e"] == "run" and len([x for x in cur if x["e"] == "run"]) >= chunk_runs:
+            groups.append(cur)
+            cur = []
+        cur.append(r)
+    groups.append(cur)
     v = {}
-    for x in tlcmod.printed_json(res, "VERDICT"):
-        v[x["run"]] = sorted(x["viol"])
+    for n, g in enumerate(groups):
+        ok, why, res = validate_trace(c, "ProvisionTrace", "ProvisionTrace.cfg", g + [{"e": "end"}],
+                                      "%s_%d" % (name, n), count=0, timeout=900, heap="3g")
+        if not ok:
+            raise util.ToolError("ProvisionTrace could not follow the recorded runs (%s): %s" % (name, why))
+        for x in tlcmod.printed_json(res, "VERDICT"):
+            v[x["run"]] = sorted(x["viol"])
     c.traces_validated += count
     return v
 
@@ -401,6 +410,11 @@ def run(c):
     v.update(verdicts(c, rrows, "c16_race", len(races)))
     seen_tags = next((o["seen"] for o in robs[races[-1][0]][1] if o["a"] == "tagobs"), None)
     c.sample({"race": label(races[-1][1]), "status.tag_seen_by_reader": seen_tags})
+    vc = {}
+    for rid, bad in v.items():
+        for prop in bad:
+            vc[prop] = vc.get(prop, 0) + 1
+    c.extra["runs_failing_the_statement"] = vc
 
     # 6. verdicts: the statement is the oracle; re-execute a failing schedule once before reporting ---------------------
     reported = set()
@@ -461,8 +475,11 @@ def run(c):
     if unrepro:
         c.extra["unreproduced"] = unrepro
         raise util.ToolError("a property failure did not reproduce from its schedule: %s" % unrepro[:2])
-    if desyncs and not c.violations and not c.known:
-        raise util.ToolError("driver lost the schedule in %d runs without any property failing: %s" % (len(desyncs), desyncs[:2]))
+    # a task that took a different path than the specification says is drift (the run was still decided against the
+    # statement up to that point); a task that neither parked nor finished is trouble in the machinery
+    lost = [d for d in desyncs if "expected" not in d[1]]
+    if lost and not c.violations and not c.known:
+        raise util.ToolError("driver lost the schedule in %d runs without any property failing: %s" % (len(lost), lost[:2]))
     c.exhaustive = True
     c.rule = ("TLC exhaustive on spec/mc/Provision_*.cfg; S->I: every printed behaviour (seeded -simulate) and every "
               "counterexample class of the statement's properties is executed step by step on the real code through the "
